@@ -21,7 +21,21 @@ pub fn corpus(seed: u64, n: u64) -> Vec<Case> {
             cfg.s3 = false;
             cfg.fold = true;
         }
-        let l = gen_logical(&mut r, &cfg, &GenOpts::default());
+        let mut l = gen_logical(&mut r, &cfg, &GenOpts::default());
+        if i % 10 == 7 {
+            // large parameter lists with repeated names: hash-map growth, long sorts, many equal keys
+            let n = 30 + r.usize_below(60);
+            l.url_pairs = (0..n)
+                .map(|k| {
+                    let name = if r.chance(1, 3) {
+                        format!("tag{}", r.below(4))
+                    } else {
+                        format!("p{}", k)
+                    };
+                    (name.into_bytes(), crate::gen::gen_qtoken(&mut r, true))
+                })
+                .collect();
+        }
         let mut sr = Rng::keyed(seed, "C18", "spell", 0, i);
         let mut sp = Speller {
             r: &mut sr,
